@@ -393,13 +393,30 @@ func (m *Model) AddRule(loc, id string, rule map[string]interface{}, p Prot) (st
 // Rem removes id and, transitively, everything that names a removed id in
 // deleteWith.  It returns the removed ids.
 func (m *Model) rem(l *MLoc, id string) []string {
-	var removed []string
 	if _, ok := l.Items[id]; !ok {
 		return nil
 	}
+	return m.cascade(l, id)
+}
+
+// CascadeFrom removes the transitive dependents of id whether or not id
+// exists (used only to follow the engine through a known finding).
+func (m *Model) CascadeFrom(loc, id string) []string {
+	l := m.Loc(loc)
+	removed := m.cascade(l, id)
+	for _, r := range removed {
+		delete(m.unc(l), r)
+	}
+	return removed
+}
+
+func (m *Model) cascade(l *MLoc, id string) []string {
+	var removed []string
 	queue := []string{id}
-	delete(l.Items, id)
-	removed = append(removed, id)
+	if _, ok := l.Items[id]; ok {
+		delete(l.Items, id)
+		removed = append(removed, id)
+	}
 	for len(queue) > 0 {
 		cur := queue[0]
 		queue = queue[1:]
